@@ -5,6 +5,7 @@ import GoframeModel.Lemmas.Rect
 import GoframeModel.Props.C08
 import GoframeModel.Props.C15
 import GoframeModel.Lemmas.RowsWhole
+import GoframeModel.Lemmas.Shift
 /-
   C01 — frames stay rectangular and row-aligned through every operation history.
   One-step preservation for every public operation, lifted to every reachable pool by induction over
@@ -190,6 +191,14 @@ theorem dropRow_rows_whole {f : Frame} {n : Nat} (hs : f.Sorted) (hr : f.RectN n
       exact ofRows_rowsFrom hs hr _ (fun r hr => List.mem_of_mem_eraseIdx hr)
   · rw [h] at hsp
     cases hsp
+
+/-- `Shift(p)` moves rows WHOLE: every row of the result is a row of the source, all cells together, or the
+all-nil row that fills the vacated positions -/
+theorem shift_rows_whole {f : Frame} {n : Nat} (hr : f.RectN n) (p : Int)
+    (hp : inInt64 p) (hn : (n : Int) < 2 ^ 62) :
+    (f.shift p).keys = f.keys ∧
+    ∀ r ∈ (f.shift p).rows, r ∈ f.rows ∨ r = List.replicate f.keys.length Cell.nil :=
+  ⟨shift_keys f p, shift_rows_mem hr p hp hn⟩
 
 /-- non-vacuity: a two-row frame, its Head(1) has exactly the first row -/
 example :
